@@ -110,7 +110,7 @@ plan("C01", "exploration",
      "5 wrapper modes x hist_bits 0-15 x {default, static, custom-from-data, custom-from-random-histogram} x 6 level_buf sizes (and NULL for stateless level 1) x {stateless, one call, streaming "
      "with generated in/out chunk schedules} x 12 simulated cpu levels; thorough adds the 8 KiB-window and LONGER_HUFFTABLE builds. Oracle: zlib + RFC 1951 reference decoder. "
      "Non-trivial: stream with a match, >=2 blocks or split stored block.",
-     lambda tier: [S("C01", 6000)] if tier == "quick" else [S("C01", 150000), S("C01", 40000, cfg="hist8k"), S("C01", 40000, cfg="longhuff")],
+     lambda tier: [S("C01", 12000), S("C01", 2000, cfg="hist8k"), S("C01", 2000, cfg="longhuff")] if tier == "quick" else [S("C01", 150000), S("C01", 40000, cfg="hist8k"), S("C01", 40000, cfg="longhuff")],
      assumptions=["zlib 1.2.13 inflate and an RFC 1951 decoder written for this framework are the independent decoders",
                   "output space is generous here (tight space is C10)", "hist_bits is generated in 0..15 as documented"])
 
@@ -118,7 +118,7 @@ plan("C02", "exploration",
      "Generated valid streams: deflate grammar programs (stored/fixed/dynamic in any order, empty blocks, random Kraft-complete codes with lengths up to 15, single-code and empty distance alphabets, "
      "16/17/18 runs crossing the table boundary, every length/distance symbol, overlap, dist 32768, final block near 2/4 KiB), zlib-encoded recipes (all levels/strategies/windowBits/memLevel/flush kinds) "
      "and ISA-L-encoded ones; wrappers raw/gzip(optional fields)/zlib x crc_flag x API x decode kernel via cpu level x hist_bits x appended garbage. Non-trivial: has a Huffman-coded match.",
-     lambda tier: [S("C02", 24000)] if tier == "quick" else [S("C02", 1200000), S("C02", 150000, cfg="hist8k"), S("C02", 150000, cfg="longhuff")],
+     lambda tier: [S("C02", 24000), S("C02", 4000, cfg="hist8k"), S("C02", 4000, cfg="longhuff")] if tier == "quick" else [S("C02", 1200000), S("C02", 150000, cfg="hist8k"), S("C02", 150000, cfg="longhuff")],
      label_floors={"valid_streams": {"litlen-code>=13bits": 0.02, "dist=32768": 0.002, "blocks>=3": 0.05, "repeat-crosses-litlen/dist-boundary": 0.01}},
      assumptions=["streams are strictly valid: complete codes or the degenerate alphabets zlib accepts; every generated stream is first decoded by the reference decoder and by zlib, which must agree"])
 
